@@ -2,6 +2,7 @@ package rules
 
 import (
 	"golang.org/x/tools/go/cfg"
+	"sort"
 
 	"go/ast"
 	"go/token"
@@ -146,63 +147,107 @@ func c05Allow(c *core.Ctx) {
 	// identify parse result, lookup results (the two prefix tries are resolved by the spec list
 	// they are built from, not by their names)
 	allowF, blockF := c05RangerField(c, "AllowIPs"), c05RangerField(c, "BlockIPs")
-	var ipID, aID, bID *ast.Ident
-	var errIDs []*ast.Ident
-	ast.Inspect(f.Body, func(n ast.Node) bool {
-		as, ok := n.(*ast.AssignStmt)
-		if !ok || len(as.Rhs) != 1 {
-			return true
-		}
-		call, ok := ast.Unparen(as.Rhs[0]).(*ast.CallExpr)
-		if !ok {
-			return true
-		}
-		if calleeFull(f, call) == "net.ParseIP" && len(as.Lhs) == 1 {
-			ipID = muxIdentOf(as.Lhs[0])
-		}
-		if methodName(call) == "Contains" && len(as.Lhs) == 2 {
-			if sel, ok := ast.Unparen(call.Fun).(*ast.SelectorExpr); ok {
-				if s2, ok := ast.Unparen(sel.X).(*ast.SelectorExpr); ok {
-					id0, id1 := muxIdentOf(as.Lhs[0]), muxIdentOf(as.Lhs[1])
-					if id0 == nil || id1 == nil {
-						return true
-					}
-					if sl := f.Info.Selections[s2]; sl != nil {
-						switch sl.Obj() {
-						case types.Object(allowF):
-							aID = id0
-						case types.Object(blockF):
-							bID = id0
+	// the parse result and the results of the two lookups may live in Allow or in the helpers it is
+	// split into (allowParsed(net.ParseIP(ipstr)); lookup(ip) (allowed, blocked bool, err error)):
+	// every variable that holds one of them, through assignments, parameters and results
+	vfA := newMuxFlow(fns)
+	var parseCall, aCall, bCall *ast.CallExpr
+	for _, g := range fns {
+		for _, call := range calls(g.Body, true) {
+			if calleeFull(g, call) == "net.ParseIP" {
+				parseCall = call
+			}
+			if methodName(call) == "Contains" {
+				if sel, ok := ast.Unparen(call.Fun).(*ast.SelectorExpr); ok {
+					if s2, ok := ast.Unparen(sel.X).(*ast.SelectorExpr); ok {
+						if sl := g.Info.Selections[s2]; sl != nil {
+							switch sl.Obj() {
+							case types.Object(allowF):
+								aCall = call
+							case types.Object(blockF):
+								bCall = call
+							}
 						}
 					}
-					errIDs = append(errIDs, id1)
 				}
 			}
 		}
-		return true
-	})
-	if allowF == nil || blockF == nil || ipID == nil || aID == nil || bID == nil || len(errIDs) != 2 {
+	}
+	var ipIDs, aIDs, bIDs, errIDs []*ast.Ident
+	sortedIDs := func(m map[types.Object]*ast.Ident) []*ast.Ident {
+		var out []*ast.Ident
+		for _, id := range m {
+			out = append(out, id)
+		}
+		sort.Slice(out, func(i, j int) bool { return out[i].Pos() < out[j].Pos() })
+		return out
+	}
+	if allowF != nil && blockF != nil && parseCall != nil && aCall != nil && bCall != nil {
+		ipIDs = sortedIDs(muxResultHolders(vfA, parseCall, 0))
+		// the address handed on as an operand: f.allowParsed(net.ParseIP(ipstr))
+		for o, ref := range vfA.param {
+			for _, site := range vfA.sites[ref.fn] {
+				if ref.idx >= 0 && ref.idx < len(site.Call.Args) && ast.Unparen(site.Call.Args[ref.idx]) == ast.Expr(parseCall) {
+					if id := vfA.ident[o]; id != nil {
+						ipIDs = append(ipIDs, id)
+					}
+				}
+			}
+		}
+		aIDs, bIDs = sortedIDs(muxResultHolders(vfA, aCall, 0)), sortedIDs(muxResultHolders(vfA, bCall, 0))
+		errIDs = append(sortedIDs(muxResultHolders(vfA, aCall, 1)), sortedIDs(muxResultHolders(vfA, bCall, 1))...)
+	}
+	if len(ipIDs) == 0 || len(aIDs) == 0 || len(bIDs) == 0 || len(errIDs) == 0 {
 		c.Undecide("R-C05-1", cons+"|decision table", pos(c, f.Body), "cannot identify ParseIP / allow-list Contains / block-list Contains results")
 		return
 	}
-	objOf := func(id *ast.Ident) types.Object {
-		if o := f.Info.Defs[id]; o != nil {
-			return o
+	objOf := func(id *ast.Ident) types.Object { return vfA.obj(id) }
+	anyOf := func(st *flow.State, ids []*ast.Ident, key func(*ast.Ident) string) flow.Val {
+		for _, id := range ids {
+			if v := st.Get(key(id)); v != flow.Unknown {
+				return v
+			}
 		}
-		return f.Info.Uses[id]
+		return flow.Unknown
 	}
-	ipNil := f.NilKey(ipID)
-	aKey, bKey := f.VarKey(aID), f.VarKey(bID)
-	eqKey := f.EqKey(aID, bID)
-	errNil := f.NilKey(errIDs[0])
-	vfA := newMuxFlow(fns)
-	for _, id := range []*ast.Ident{aID, bID} {
+	nilKey := func(id *ast.Ident) string { return f.NilKey(id) }
+	varKey := func(id *ast.Ident) string { return f.VarKey(id) }
+	ipNilOf := func(st *flow.State) flow.Val { return anyOf(st, ipIDs, nilKey) }
+	aOf := func(st *flow.State) flow.Val { return anyOf(st, aIDs, varKey) }
+	bOf := func(st *flow.State) flow.Val { return anyOf(st, bIDs, varKey) }
+	eqOf := func(st *flow.State) flow.Val {
+		for _, a := range aIDs {
+			for _, b := range bIDs {
+				if v := st.Get(f.EqKey(a, b)); v != flow.Unknown {
+					return v
+				}
+			}
+		}
+		return flow.Unknown
+	}
+	isA := func(o types.Object) bool {
+		for _, id := range aIDs {
+			if objOf(id) == o {
+				return true
+			}
+		}
+		return false
+	}
+	isB := func(o types.Object) bool {
+		for _, id := range bIDs {
+			if objOf(id) == o {
+				return true
+			}
+		}
+		return false
+	}
+	for _, id := range append(append([]*ast.Ident{}, aIDs...), bIDs...) {
 		vfA.stop[objOf(id)] = true
 	}
 	// events: which lookups have been performed and whether one failed
 	res := muxAnalyzeInl(c, f, df.config(flow.Config{NoHavoc: true,
 		AfterAssume: func(st *flow.State, cond ast.Expr, outcome bool) {
-			if st.Is(errNil, flow.False) {
+			if anyOf(st, errIDs, nilKey) == flow.False {
 				st.Set("ev:lookupFailed", flow.True)
 			}
 		},
@@ -239,13 +284,10 @@ func c05Allow(c *core.Ctx) {
 			}
 			return "?"
 		}
-		isVar := func(o types.Object) func(types.Object) bool {
-			return func(x types.Object) bool { return x == o }
-		}
 		switch {
-		case vfA.allPaths(e, false, isVar(objOf(aID))):
+		case vfA.allPaths(e, false, isA):
 			return boolStr(av)
-		case vfA.allPaths(e, false, isVar(objOf(bID))):
+		case vfA.allPaths(e, false, isB):
 			return boolStr(bv)
 		}
 		if id := muxIdentOf(e); id != nil && st.Get(f.VarKey(id)) != flow.Unknown {
@@ -266,9 +308,9 @@ func c05Allow(c *core.Ctx) {
 		}
 		st := ex.State
 		switch {
-		case st.Is(ipNil, flow.True), st.Is("ev:lookupFailed", flow.True):
+		case ipNilOf(st) == flow.True, st.Is("ev:lookupFailed", flow.True):
 			row := "unparsable address"
-			if !st.Is(ipNil, flow.True) {
+			if ipNilOf(st) != flow.True {
 				row = "lookup error"
 			}
 			got := value(st, r, false, false)
@@ -285,13 +327,13 @@ func c05Allow(c *core.Ctx) {
 			// what the path has learned must agree with the table
 			for _, av := range []bool{true, false} {
 				for _, bv := range []bool{true, false} {
-					if a := st.Get(aKey); a != flow.Unknown && (a == flow.True) != av {
+					if a := aOf(st); a != flow.Unknown && (a == flow.True) != av {
 						continue
 					}
-					if b := st.Get(bKey); b != flow.Unknown && (b == flow.True) != bv {
+					if b := bOf(st); b != flow.Unknown && (b == flow.True) != bv {
 						continue
 					}
-					if e := st.Get(eqKey); e != flow.Unknown && (e == flow.True) != (av == bv) {
+					if e := eqOf(st); e != flow.Unknown && (e == flow.True) != (av == bv) {
 						continue
 					}
 					want := "default"
@@ -428,8 +470,21 @@ func c05Conj(c *core.Ctx) {
 	}
 	loop := loops[0]
 	var allow []*ast.CallExpr
+	parsedVariant := c05ParsedVariant(c)
 	for _, call := range calls(loop.body(), false) {
-		if calleeIs(f, call, "(*"+ipf+".IPFilter).Allow") {
+		isAllow := calleeIs(f, call, "(*"+ipf+".IPFilter).Allow")
+		if fo, ok := f.Callee(call).(*types.Func); ok && parsedVariant != nil && fo.Origin() == parsedVariant && len(call.Args) == 1 {
+			// filter.allowParsed(ip) with ip := net.ParseIP(<the address handed to the chain>),
+			// where IPFilter.Allow is nothing but `return f.allowParsed(net.ParseIP(ipstr))`
+			if pc, ok := vf.through(call.Args[0]).(*ast.CallExpr); ok && calleeFull(f, pc) == "net.ParseIP" && len(pc.Args) == 1 {
+				if id := muxIdentOf(pc.Args[0]); id != nil {
+					if _, isParam := vf.param[vf.obj(id)]; isParam && len(vf.defs[vf.obj(id)]) == 0 {
+						isAllow = true
+					}
+				}
+			}
+		}
+		if isAllow {
 			if sel, ok := ast.Unparen(call.Fun).(*ast.SelectorExpr); ok && loop.isElem(vf, sel.X) {
 				allow = append(allow, call)
 			}
@@ -494,6 +549,41 @@ func c05Conj(c *core.Ctx) {
 		return
 	}
 	c.Check(bad == nil, "R-C05-1", cons+"|conjunction over all filters", pos(c, loop.stmt), "false at the first denying filter, true only after the loop", why, witness(bad)...)
+}
+
+// c05ParsedVariant: when IPFilter.Allow is nothing but `return f.V(net.ParseIP(ipstr))`, the method V
+// (the single filter's verdict on a parsed address; its decision table is the one extracted from Allow).
+func c05ParsedVariant(c *core.Ctx) *types.Func {
+	f := fnOpt(c, ipf, "IPFilter", "Allow")
+	if f == nil || len(f.Body.List) != 1 {
+		return nil
+	}
+	ret, ok := f.Body.List[0].(*ast.ReturnStmt)
+	if !ok || len(ret.Results) != 1 {
+		return nil
+	}
+	call, ok := ast.Unparen(ret.Results[0]).(*ast.CallExpr)
+	if !ok || len(call.Args) != 1 {
+		return nil
+	}
+	fo, _ := f.Callee(call).(*types.Func)
+	if fo == nil || fo.Pkg() != f.Pkg.Types {
+		return nil
+	}
+	sel, ok := ast.Unparen(call.Fun).(*ast.SelectorExpr)
+	fd := f.Node.(*ast.FuncDecl)
+	if !ok || fd.Recv == nil || len(fd.Recv.List) != 1 || len(fd.Recv.List[0].Names) != 1 || muxIdentOf(sel.X) == nil || f.Info.Uses[muxIdentOf(sel.X)] != f.Info.Defs[fd.Recv.List[0].Names[0]] {
+		return nil
+	}
+	pc, ok := ast.Unparen(call.Args[0]).(*ast.CallExpr)
+	if !ok || calleeFull(f, pc) != "net.ParseIP" || len(pc.Args) != 1 {
+		return nil
+	}
+	id := muxIdentOf(pc.Args[0])
+	if id == nil || len(fd.Type.Params.List) != 1 || len(fd.Type.Params.List[0].Names) != 1 || f.Info.Uses[id] != f.Info.Defs[fd.Type.Params.List[0].Names[0]] {
+		return nil
+	}
+	return fo.Origin()
 }
 
 func c05Search(c *core.Ctx, s *searchInfo) {
